@@ -229,6 +229,21 @@ impl Context {
 
         let mut prev = task.node().clone();
         let parent = task.node().clone();
+
+        // the node can run again (its step is visited again by a `next` jump or by `back`):
+        // the acts that an earlier run has built are replaced, not added to
+        {
+            let mut nodes = parent.nodes.write().unwrap();
+            if !nodes.is_empty() {
+                parent
+                    .children
+                    .write()
+                    .unwrap()
+                    .retain(|c| !nodes.iter().any(|n| n.id() == c.node.id()));
+                nodes.clear();
+            }
+        }
+
         let mut acts = acts.to_owned();
         for (index, act) in acts.iter_mut().enumerate() {
             dyn_build_act(
